@@ -47,6 +47,10 @@ func (f *Flatten) Apply(inputs []tensor.Tensor) ([]tensor.Tensor, error) {
 		axis = rank + axis
 	}
 
+	if axis < 0 || axis > rank {
+		return nil, ops.ErrAxisOutOfRange(rank, rank, f.axis)
+	}
+
 	out, ok := inputs[0].Clone().(tensor.Tensor)
 	if !ok {
 		return nil, ops.ErrTypeAssert("tensor.Tensor", inputs[0].Clone())
